@@ -535,6 +535,16 @@ fn compile_verdict(prog: &Program) -> Result<String, crate::engine::PanicInfo> {
     })
 }
 
+/// One generated system through the differential oracle (used by the libFuzzer target).
+pub fn fuzz_system(tape: &mut Tape, r: &mut CaseReport) -> String {
+    let (_, eqs) = gen_system(tape);
+    let (_, f) = check_system(&eqs, tape);
+    if let Some(f) = f {
+        r.fail(f);
+    }
+    eqs.iter().map(|(l, r)| format!("{} = {}", show(l), show(r))).collect::<Vec<_>>().join("; ")
+}
+
 fn replay_text(text: &str) -> Result<(), Failure> {
     match catch(|| load(&Sources::single(text))) {
         Ok(_) => Ok(()),
